@@ -1046,6 +1046,24 @@ func (c *c02ctx) r5NoWrite() {
 			if id.is(ttlvPath, "ttlvReader", "value") {
 				return true
 			}
+			// library functions that return a view of their argument keep the alias; only the
+			// known copying functions produce fresh memory
+			if _, isSlice := x.Type().Underlying().(*types.Slice); isSlice && !strings.HasPrefix(id.pkg, modPath) {
+				fresh := id.is("slices", "", "Clone") || id.is("bytes", "", "Clone") || id.pkg == "encoding/hex" || id.is("bytes", "", "ToUpper") || id.is("bytes", "", "ToLower")
+				if b, ok := x.Call.Value.(*ssa.Builtin); ok {
+					if b.Name() == "append" && len(x.Call.Args) > 0 {
+						return tainted(x.Call.Args[0], depth+1)
+					}
+					return false
+				}
+				if !fresh {
+					for _, a := range x.Call.Args {
+						if _, ok := a.Type().Underlying().(*types.Slice); ok && tainted(a, depth+1) {
+							return true
+						}
+					}
+				}
+			}
 			return false
 		case *ssa.ChangeType:
 			return tainted(x.X, depth+1)
